@@ -331,6 +331,21 @@ fn asset_balance(p: &Point) -> AssetBalance<AssetIndex> {
     AssetBalance { asset: AssetIndex(0), balance: Balance::new(p.v, p.v - locked(p)), time_exchange: t(p.t) }
 }
 
+/// The generators are `Serialize + Deserialize` state (part of engine state and audit snapshots): a copy
+/// restored from its serialised form must equal the original, and the run continues on the copy.
+fn restored<T: serde::Serialize + serde::de::DeserializeOwned + PartialEq + std::fmt::Debug>(x: &T) -> T {
+    let text = serde_json::to_string(x).unwrap_or_else(|e| panic!("RESTORE: does not serialise: {e}"));
+    let back: T = serde_json::from_str(&text).unwrap_or_else(|e| panic!("RESTORE: does not deserialise: {e}"));
+    if &back != x {
+        panic!("RESTORE: the restored generator differs from the persisted one: {back:?} vs {x:?}");
+    }
+    back
+}
+
+fn restore_now(p: &Point) -> bool {
+    p.t.rem_euclid(7) == 3
+}
+
 impl Sut {
     fn new(path: Path) -> Sut {
         match path {
@@ -362,6 +377,11 @@ impl Sut {
                 if let Some(dd) = &out {
                     feed_max_mean(maxg, meang, dd, *init);
                 }
+                if restore_now(p) {
+                    *g = g.as_ref().map(restored);
+                    *maxg = maxg.as_ref().map(restored);
+                    *meang = meang.as_ref().map(restored);
+                }
                 StepObs {
                     emitted: Some(out.as_ref().map(DD::of)),
                     current: g.as_ref().unwrap().clone().generate().as_ref().map(DD::of),
@@ -378,6 +398,9 @@ impl Sut {
                         *g = Some(fresh);
                     }
                     Some(tsg) => tsg.update_from_balance(Snapshot(&asset_balance(p))),
+                }
+                if restore_now(p) {
+                    *g = g.as_ref().map(restored);
                 }
                 let tsg = g.as_ref().unwrap();
                 StepObs {
@@ -404,6 +427,9 @@ impl Sut {
                 *prev = p.v;
                 tsg.update_from_position(&position);
                 assert_eq!(tsg.pnl_returns.pnl_raw, p.v, "harness: cumulative pnl must reproduce the curve");
+                if restore_now(p) {
+                    *tsg = restored(tsg);
+                }
                 StepObs {
                     emitted: None,
                     current: tsg.pnl_drawdown.clone().generate().as_ref().map(DD::of),
@@ -507,6 +533,9 @@ fn observe(path: Path, points: &[Point]) -> Observed {
         match catch(|| sut.feed(p)) {
             Ok(o) => steps.push(o),
             Err(msg) if msg.contains("harness:") => panic!("{msg}"),
+            Err(msg) if msg.contains("RESTORE:") => {
+                return Observed { steps, fin: None, panic: Some(("generator_changed_by_persisting_and_restoring", format!("after point #{i} {p:?}: {msg}"))) };
+            }
             Err(msg) => {
                 return Observed { steps, fin: None, panic: Some(("panic_in_drawdown_update", format!("point #{i} {p:?} panicked: {msg}"))) };
             }
